@@ -121,6 +121,33 @@ def check_routing(c, repo):
         if broad:
             seen_broad = True
     c.need(got.get('EOF') and got.get('TIMEOUT'), 'expect_loop has no dedicated EOF / TIMEOUT handlers')
+    # errored(): before = all pending text, after / match / match_index = None
+    er = repo.func('expect:Expecter.errored')
+    ge = er.cfg
+    bs = [n for n in ge.nodes if n.kind == 'stmt' and stmt_assigns_attr(n.ast, 'before') is not None]
+    c.check(len(bs) == 1 and ctext(bs[0].ast.value, er) == 'self.spawn._before.getvalue()' and ge.dominated_by(ge.exit, {bs[0]})[0], er, bs[0].ast if bs else None,
+            'errored(): before = all data received up to the exception', kind='ast', tag='errored-before')
+    for attr in ('after', 'match', 'match_index'):
+        xs = [n for n in ge.nodes if n.kind == 'stmt' and stmt_assigns_attr(n.ast, attr) is not None]
+        c.check(len(xs) == 1 and is_const(xs[0].ast.value, None) and ge.dominated_by(ge.exit, {xs[0]})[0], er, xs[0].ast if xs else None,
+                'errored(): %s = None' % attr, kind='ast', tag='errored-' + attr)
+    # the loop: a match reported by new_data() is returned at once, "no match" keeps reading
+    nd = cfg_nodes_with_call(f, lambda k: callee_last(k) == 'new_data')
+    c.need(len(nd) == 1 and isinstance(nd[0][0].ast, ast.Assign), 'expect_loop: idx = self.new_data(...) not found')
+    nv = nd[0][0].ast.targets[0].id
+    nts = [t2 for t2 in f.cfg.nodes if t2.kind == 'test' and compare_parts(t2.ast) and is_name(compare_parts(t2.ast)[0], nv)
+           and isinstance(compare_parts(t2.ast)[1], (ast.Is, ast.IsNot)) and f.cfg.dominated_by(t2, {nd[0][0]})[0]]
+    if not nts:
+        truthy = [t2 for t2 in f.cfg.nodes if t2.kind == 'test' and norm(t2.ast) in (nv, 'not %s' % nv) and f.cfg.dominated_by(t2, {nd[0][0]})[0]]
+        c.need(truthy, 'expect_loop: test of the new_data() result not found')
+        c.bad(f, truthy[0].ast, 'the result of new_data() is tested for truthiness: a match of the first listed pattern (index 0) is ignored and the loop keeps reading',
+              witness=norm(truthy[0].ast), kind='path', tag='newdata-returned')
+    else:
+        c.need(len(nts) == 1, 'expect_loop: test of the new_data() result not found')
+        e2 = 'true' if isinstance(compare_parts(nts[0].ast)[1], ast.IsNot) else 'false'
+        nx2 = [s2 for s2, l2 in nts[0].succ if l2 == e2]
+        c.check(len(nx2) == 1 and nx2[0].kind == 'stmt' and isinstance(nx2[0].ast, ast.Return) and is_name(nx2[0].ast.value, nv), f, nts[0].ast,
+                'a match found in new data (index is not None, 0 included) is returned at once', kind='path', tag='newdata-returned')
     # class relation
     ex = repo.modules['exceptions']
     for n in ('EOF', 'TIMEOUT'):
@@ -229,12 +256,19 @@ def check_existing_first(c, repo):
         tests = [t for t in tests if g.dominated_by(t, {en})[0] and
                  not any(x.kind == 'stmt' and any(callee_last(k) in firsts for k in node_calls(x))
                          for x in (g.path(en, t, skip_labels=('exc',)) or [])[1:-1])]
+        if not tests:
+            truthy = [t for t in g.nodes if t.kind == 'test' and norm(t.ast) in (v, 'not %s' % v) and g.dominated_by(t, {en})[0]]
+            if truthy:
+                c.bad(f, truthy[0].ast, 'the result of existing_data() is tested for truthiness: index 0 (the first listed pattern) counts as "no match"',
+                      witness=norm(truthy[0].ast), kind='path', tag='pending-wins')
+                continue
         c.need(tests, '%s: test of the existing_data() result not found' % q)
         t0 = min(tests, key=lambda t: t.id)
         edge = 'true' if isinstance(compare_parts(t0.ast)[1], ast.IsNot) else 'false'
-        reg = guard_region(g, t0, edge)
-        rets = [n for n in reg if n.kind == 'stmt' and isinstance(n.ast, ast.Return) and is_name(n.ast.value, v)]
-        c.check(bool(rets), f, t0.ast, 'a match in the pending text is returned immediately', kind='path', tag='pending-wins')
+        nxt = [s2 for s2, l2 in t0.succ if l2 == edge]
+        okr = len(nxt) == 1 and nxt[0].kind == 'stmt' and isinstance(nxt[0].ast, ast.Return) and is_name(nxt[0].ast.value, v)
+        c.check(okr, f, t0.ast, 'a match in the pending text (index is not None, 0 included) is returned immediately; only "no match" goes on to read',
+                witness='on the not-None edge the next statement is %s' % (norm(nxt[0].ast) if nxt and nxt[0].ast is not None else 'missing'), kind='path', tag='pending-wins')
         for n, k in cfg_nodes_with_call(f, lambda k: callee_last(k) in firsts):
             if n is en or any(isinstance(p, ast.ExceptHandler) for p in parent_chain(k)):
                 continue     # handlers run only after something inside the try was attempted
@@ -379,6 +413,9 @@ MUTANTS = [
      "            from ._async import expect_async\n            return expect_async(exp, timeout)\n        else:\n            try:\n                return exp.expect_loop(timeout)\n            except TIMEOUT:\n                return -1\n\n    def expect_loop", 'D7'),
     ('unbound-end-time', 'expect', "        if timeout is not None:\n            end_time = time.time() + timeout\n\n        try:", "        if timeout:\n            end_time = time.time() + timeout\n\n        try:", 'D5'),
     ('socket-blockingio-leaks', 'socket_pexpect', "        except (socket.timeout, BlockingIOError):", "        except socket.timeout:", 'D8'),
+    ('existing-none-flipped', 'expect', "            idx = self.existing_data()\n            if idx is not None:\n                return idx\n            while True:", "            idx = self.existing_data()\n            if idx:\n                return idx\n            while True:", 'D3'),
+    ('newdata-truthy', 'expect', "                # Keep reading until exception or return.\n                if idx is not None:\n                    return idx", "                # Keep reading until exception or return.\n                if idx:\n                    return idx", 'D1'),
+    ('errored-keeps-after', 'expect', "        spawn.before = spawn._before.getvalue()\n        spawn.after = None\n        spawn.match = None", "        spawn.before = spawn._before.getvalue()\n        spawn.match = None", 'D1'),
     ('eof-no-clear-on-raise', 'expect', "        spawn.before = spawn._before.getvalue()\n        spawn._buffer = spawn.buffer_type()\n        spawn._before = spawn.buffer_type()\n        spawn.after = EOF\n        index = self.searcher.eof_index\n        if index >= 0:\n",
      "        spawn.before = spawn._before.getvalue()\n        spawn.after = EOF\n        index = self.searcher.eof_index\n        if index >= 0:\n            spawn._buffer = spawn.buffer_type()\n            spawn._before = spawn.buffer_type()\n", 'D2'),
 ]
